@@ -228,4 +228,6 @@ FIXED = ["", " ", "\n", "\n\n\n", "\t", "\r\n", "\ufeff", "#!", "#!/usr/bin/env 
          "fn df(a: int = {\n  let q = z -> y -> z + y\n  q(1)(2)\n}) -> int = a\nprintln(df())\n",
          "fn df(a: int = {\n  let q = z -> y -> z + y + outer\n  q(1)(2)\n}) -> int = a\nvar outer = 0\nprintln(df())\nprintln(df(5))\n",
          "fn df(a = x -> y -> z -> x + y + z, b = a) = b\nprintln(df()(1)(2)(3))\nprintln(df()(1)(2)(3))\n",
-         "type Pq = {\n  f: int -> int -> int = x -> y -> x * y\n}\nprintln(Pq().f(2)(3))\nprintln(Pq().f(2)(3))\n"]
+         "type Pq = {\n  f: int -> int -> int = x -> y -> x * y\n}\nprintln(Pq().f(2)(3))\nprintln(Pq().f(2)(3))\n",
+         # a struct field annotated `_`, matched by a struct pattern (open finding: exhaustiveness pass unwraps the field type)
+         "type Point = {\n    x: int\n    y: _\n}\nlet pair = (Point(1, 2), Point(3, 4))\nmatch pair {\n    (Point(x = a, y = _), Point(x = _, y = b)) -> a + b\n}\n"]
